@@ -122,7 +122,11 @@ func Parse(queryType string, raw []byte) (parsed, inspected, firstToken int, que
 	p.reset()
 
 	qs := queries[queryType]
-	got := p.consumeAny(raw, qs, 0)
+	got, ok := p.consumeValue(raw, qs, 0)
+	if !ok {
+		// parsed is the length of the complete JSON value found in raw.
+		got = 0
+	}
 	return got, p.ib, p.firstToken, p.querySatisfied
 }
 
@@ -273,8 +277,8 @@ func (p *parserState) consumeArray(b []byte, qs []query, lvl int) (n int) {
 			p.currPath = p.currPath[:len(p.currPath)-1]
 			return n + 1
 		}
-		innerParsed := p.consumeAny(b[n:], qs, lvl)
-		if innerParsed == 0 {
+		innerParsed, ok := p.consumeValue(b[n:], qs, lvl)
+		if !ok {
 			return 0
 		}
 		n += innerParsed
@@ -348,7 +352,7 @@ func (p *parserState) consumeObject(b []byte, qs []query, lvl int) (n int) {
 			return 0
 		}
 
-		if valLen := p.consumeAny(b[n:], qs, lvl); valLen == 0 {
+		if valLen, ok := p.consumeValue(b[n:], qs, lvl); !ok {
 			return 0
 		} else {
 			if queryMatched != -1 {
@@ -385,13 +389,20 @@ func (p *parserState) consumeObject(b []byte, qs []query, lvl int) (n int) {
 }
 
 func (p *parserState) consumeAny(b []byte, qs []query, lvl int) (n int) {
+	n, _ = p.consumeValue(b, qs, lvl)
+	return n
+}
+
+// consumeValue is like consumeAny but it also reports if a complete JSON value
+// was consumed. n counts the consumed bytes even when the value is not complete.
+func (p *parserState) consumeValue(b []byte, qs []query, lvl int) (n int, ok bool) {
 	// Avoid too much recursion.
 	if p.maxRecursion != 0 && lvl > p.maxRecursion {
-		return 0
+		return 0, false
 	}
 	n += p.consumeSpace(b)
 	if len(b[n:]) == 0 {
-		return 0
+		return 0, false
 	}
 
 	var t, rv int
@@ -431,11 +442,11 @@ func (p *parserState) consumeAny(b []byte, qs []query, lvl int) (n int) {
 		p.querySatisfied = true
 	}
 	if rv <= 0 {
-		return n
+		return n, false
 	}
 	n += rv
 	n += p.consumeSpace(b[n:])
-	return n
+	return n, true
 }
 
 func isSpace(c byte) bool {
